@@ -10,6 +10,7 @@ group nodes exactly when a selected case lies below them.
 Iterator adapters, raw-pointer code and format! put these functions outside Verus."""
 from lib import rsx
 from lib.unit import *
+from units import entry_common as E
 
 FILTER = "src/config/filter.rs"
 SPLIT = "src/util/split_vec.rs"
@@ -383,8 +384,10 @@ def build(S: Sources) -> Unit:
         property_id="C13",
         build_errors=errs,
         verus=ff,
-        kani=KaniSpec(flags=["--no-memory-safety-checks", "--no-assertion-reach-checks"], injections={SPLIT: KANI_SPLIT, FILTER: KANI_FILTER, TREE: KANI_TREE}, harnesses=hs,
-                      timeout_s=1500, stubs_note=["alloc::fmt::format -> empty string in verif_c13_tree::retain_small_tree_structure (path text is then not checked there)", "Filter::is_match -> per-filter symbolic verdict (in verif_c13_filter::is_match_rule only; the Exact arm is checked separately, the Regex arm delegates to the regex-lite dependency)"]),
+        kani=[KaniSpec(flags=["--no-memory-safety-checks", "--no-assertion-reach-checks"], injections={SPLIT: KANI_SPLIT, FILTER: KANI_FILTER, TREE: KANI_TREE}, harnesses=hs,
+                       timeout_s=1500, stubs_note=["alloc::fmt::format -> empty string in verif_c13_tree::retain_small_tree_structure (path text is then not checked there)", "Filter::is_match -> per-filter symbolic verdict (in verif_c13_filter::is_match_rule only; the Exact arm is checked separately, the Regex arm delegates to the regex-lite dependency)"]),
+              # per-argument selection: the labels left after filtering are the ones dispatched (and with their own values)
+              E.entry_kani("C13", only={"arg_label_to_value"})],
         undecided_clauses=[
             "regular-expression search semantics of Filter::Regex (regex-lite dependency, not under contract)",
             "CLI positional / --skip / --exact arguments to filters (clap, Divan::config_with_args)",
